@@ -150,7 +150,7 @@ func Msg(r *rand.Rand, t wire.Type, o MsgOpts) wire.Msg {
 		n := 2 + r.Intn(3)
 		peers := make([]map[wallet.BackendID]wire.Address, n)
 		for i := range peers {
-			peers[i] = WireAddr(r)
+			peers[i] = WireAddrAny(r)
 		}
 		return &client.LedgerChannelProposalMsg{
 			BaseChannelProposal: BaseProposal(r, n, o),
@@ -174,7 +174,7 @@ func Msg(r *rand.Rand, t wire.Type, o MsgOpts) wire.Msg {
 		parents := make([]channel.ID, n)
 		ims := make([][]channel.Index, n)
 		for i := range peers {
-			peers[i] = WireAddr(r)
+			peers[i] = WireAddrAny(r)
 			parents[i] = ID(r)
 			ims[i] = IndexMapN(r, n, 2)
 		}
@@ -223,5 +223,5 @@ func Msg(r *rand.Rand, t wire.Type, o MsgOpts) wire.Msg {
 
 // Envelope wraps a message of type t into an envelope with random addresses.
 func Envelope(r *rand.Rand, t wire.Type, o MsgOpts) *wire.Envelope {
-	return &wire.Envelope{Sender: WireAddr(r), Recipient: WireAddr(r), Msg: Msg(r, t, o)}
+	return &wire.Envelope{Sender: WireAddrAny(r), Recipient: WireAddrAny(r), Msg: Msg(r, t, o)}
 }
